@@ -15,8 +15,8 @@ CLAIMED = {
   "Coq theorem cons_check_sound: accepted instances keep every input block once, with payload, arity and positional successors (renamed only to new names). Per instance, every stage, three payload types."),
  "C06": ("translation_validation", "5 (C06)", "verified closed-set control-variable checker (Coq)",
   "Coq theorem ctrl_check_sound/c06_check_sound: in accepted instances ALL decision lists run without an unset, out-of-range or stale control-variable read, and every value table agrees with the block's successors. Per instance, every stage."),
- "C07": ("exploration", "5 (C07)", "path-exhaustive differential execution under an external oracle; Coq only for the middle leg (C01/C05) and the census (C10)",
-  "NO theorem decides this property (DESIGN.md section 5, C07: the verified program-vs-graph equivalence checker was not completed). Generated programs over the supported subset and closed CFGs of AST blocks are pushed through the whole pipeline; the outcome must be ok or an explicit NotImplementedError, the regenerated source must compile and agree with the original on every enumerated decision path (oracle answers 0/1/2; sequence of external calls, returned value or exception type). Two known findings (nested and/or evaluated eagerly, for target initialised to None) are listed in known_findings.json."),
+ "C07": ("translation_validation", "5 (C07)", "verified all-paths checker (Coq, extracted) on the regenerated tree of every instance + universal front-end theorem (control skeleton) + path-exhaustive differential execution against CPython",
+  "Front leg: universal Coq theorem (C07_front_leg = C08_pruned_graph_means_source) for the control skeleton. Graph -> regenerated tree: per instance, the implementation's tree must equal the tree of the Coq model of SCFG2ASTTransformer node for node (or both refuse), and the verified checker back_check must accept it: laid out as a walk (Model/BackSem.v, the modelled reading of the generated Python) it passes through the original blocks exactly as the input graph does under every decision list (C07_back_leg). In addition generated programs and closed CFGs of AST blocks are pushed through the whole pipeline; the outcome must be ok or an explicit NotImplementedError, the regenerated source must compile and agree with the original on every enumerated decision path (oracle answers 0/1/2; sequence of external calls, returned value or exception type). Known findings (nested and/or evaluated eagerly, and/or inside larger expressions, for target initialised to None) are listed in known_findings.json."),
  "C08": ("proof", "5 (C08)", "Coq proof of the pruning passes with order-exact correspondence (census half); path-exhaustive differential execution for the semantic half",
   "PARTIAL. Proved in Coq over a line-by-line model of prune_unreachable / prune_noops / prune_empty: exactly the blocks unreachable from the entry, the no-op statements and the blocks without instructions are removed, every other instruction survives once and in order; the model's pruning of the implementation's unpruned graph equals the implementation's pruned graph for every generated program. NOT proved: that interpreting the graph equals running the function - that half is decided by path-exhaustive differential execution against CPython under an oracle (exploration). Two known findings listed."),
  "C09": ("proof", "5 (C09)", "Coq proof of the block cutter over all well-formed instruction streams; opcode tables translated from source and from the interpreters' opcode modules",
